@@ -36,7 +36,7 @@ def instOf? (j : Json) : Option Inst := do
   let cancelled ← jBool? (← jField? j "cancelled")
   -- the times of an earlier cancellation/abandonment are not observable in a snapshot: placeholders
   some { reasons := rs, when := when, cancelAt := if cancelled then some 0 else none,
-         abandonAt := if Reason.abandoned ∈ rs then some 0 else none, kstarts := [] }
+         abandonAt := if Reason.abandoned ∈ rs then some 0 else none, kstarts := [], since := 0 }
 
 def sortStr (l : List String) : List String := (l.toArray.qsort (· < ·)).toList
 def sortInt (l : List Int) : List Int := (l.toArray.qsort (· < ·)).toList
@@ -76,7 +76,7 @@ def handle : DrvHandler := fun op args =>
         let ex1 ← exOf? (← jField? h "ex1")
         let ex2 ← exOf? (← jField? h "ex2")
         let s : St := { now := now, run := pre, forever := forever, known := true,
-                        live := if pre.isSome then 1 else 0, spawns := 0 }
+                        live := if pre.isSome then 1 else 0, spawns := 0, paused := none, killerDone := false }
         let exitAfter ← jBool? (← jField? h "exitAfter")
         let (s1, ds) := cycle c { matching, marked, paused, deleted, ex1, ex2 } s
         -- the instance ended inside the cycle but after its own turn: the cycle label followed by `exit`
@@ -96,8 +96,8 @@ def handle : DrvHandler := fun op args =>
   | "C09.exit", [j] => do
       let rs ← (← jStrList? (← jField? j "reasons")).mapM reasonOf?
       let forever ← jBool? (← jField? j "forever")
-      let i : Inst := { Inst.fresh with reasons := rs, when := if rs.isEmpty then none else some 0 }
-      let s : St := { now := 0, run := some i, forever := forever, known := true, live := 1, spawns := 1 }
+      let i : Inst := { Inst.fresh 0 with reasons := rs, when := if rs.isEmpty then none else some 0 }
+      let s : St := { now := 0, run := some i, forever := forever, known := true, live := 1, spawns := 1, paused := none, killerDone := false }
       match step { backoff := none, timeout := none, polling := 0 } s .exit with
       | some s' => some (ok (Json.mkObj [("forever", .bool s'.forever), ("running", .bool s'.run.isSome), ("live", .num (JsonNumber.fromNat s'.live))]))
       | none => some (err "not-enabled")
@@ -131,7 +131,7 @@ def handle : DrvHandler := fun op args =>
       let ds ← jArr? j
       let outs ← ds.mapM (fun d => do
         let rs ← (← jStrList? (← jField? d "reasons")).mapM reasonOf?
-        pure (Json.bool (sweepSpawns { Inst.fresh with reasons := rs })))
+        pure (Json.bool (sweepSpawns { Inst.fresh 0 with reasons := rs })))
       some (ok (.arr outs.toArray))
   | "C09.variant", [] => some (ok (Json.mkObj [("treeGuarded", .bool treeGuarded), ("treeYielding", .bool treeYielding)]))
   | _, _ => none
